@@ -424,7 +424,7 @@ pub fn mutate(r: &mut Rng, s: &str) -> String {
     let chars: Vec<char> = s.chars().collect();
     let n = chars.len();
     let mut out: String;
-    match r.below(9) {
+    match r.below(10) {
         0 if n > 0 => {
             let i = r.below(n as u64) as usize;
             out = chars[..i].iter().chain(chars[i + 1..].iter()).collect();
@@ -476,6 +476,26 @@ pub fn mutate(r: &mut Rng, s: &str) -> String {
             let parts: Vec<&str> = s.split(';').collect();
             let k = r.below(parts.len() as u64) as usize;
             out = parts.iter().enumerate().filter(|(i, _)| *i != k).map(|(_, x)| *x).collect::<Vec<_>>().join(";");
+        }
+        8 => {
+            // the same fields in another order: two `;`-separated parts exchanged (the last field first, a list in the
+            // middle moved to the very end, …)
+            let mut p: Vec<String> = s.split(';').map(|x| x.to_string()).collect();
+            if p.len() >= 2 {
+                let i = r.below(p.len() as u64) as usize;
+                let j = if r.chance(1, 2) { p.len() - 1 } else { r.below(p.len() as u64) as usize };
+                // keep the type tag (`Name:first_key=…`) in front when the first part is involved
+                if i != j && i.min(j) == 0 {
+                    if let (Some((tag, a)), b) = (p[0].split_once(':').map(|(t, a)| (t.to_string(), a.to_string())), p[i.max(j)].clone()) {
+                        p[0] = format!("{tag}:{b}");
+                        let k = i.max(j);
+                        p[k] = a;
+                    }
+                } else {
+                    p.swap(i, j);
+                }
+            }
+            out = p.join(";");
         }
         7 => {
             // replace one ASCII digit (of a number, a timestamp, an id) by a numeric character that is not an ASCII
@@ -553,6 +573,35 @@ pub fn gen_codec(seed: u64, n_valid: u64, n_bad: u64, out: &crate::gens::Sink) {
             out.push(format!("case {case}"));
             case += 1;
             out.push(format!("txt.parse {ty} {}", hex(&bad)).trim_end().to_string());
+        }
+    }
+    // every prefix of one valid encoding per type (a text cut right after a list, a field, a separator …)
+    for ty in TYPES {
+        let v = rvalue(&mut r, ty);
+        let Some(text) = show_by_type(ty, &v) else { continue };
+        let chars: Vec<char> = text.chars().collect();
+        if chars.len() > 900 { continue; }
+        for n in 0..chars.len() {
+            let pre: String = chars[..n].iter().collect();
+            out.push(format!("case {case}"));
+            case += 1;
+            out.push(format!("txt.parse {ty} {}", hex(&pre)).trim_end().to_string());
+        }
+    }
+    // a second valid pass AFTER the rejected texts, on the same thread: a parser must not remember a failure
+    for ty in TYPES {
+        for _ in 0..(n_valid / 8).max(20) {
+            let v = rvalue(&mut r, ty);
+            if v.len() > 4000 { continue; }
+            out.push(format!("case {case}"));
+            case += 1;
+            // a rejected text of the same type right before
+            if let Some(text) = show_by_type(ty, &rvalue(&mut r, ty)) {
+                if text.len() < 4000 {
+                    out.push(format!("txt.parse {ty} {}", hex(&mutate(&mut r, &text))).trim_end().to_string());
+                }
+            }
+            out.push(format!("txt.rt {ty} {v}"));
         }
     }
 }
